@@ -981,7 +981,9 @@ fn pipeline_b(
         let mut pos = 0usize;
         let mut errors_seen = 0;
         for c in lens {
-            let r = metered!(ctx, pos + c, ss.write(&stream_bytes[pos..pos + c]));
+            // the chunk plus what earlier writes left unfinished (back to the last separator)
+            let pending_from = stream_bytes[..pos].windows(2).rposition(|w| w == b"\n\n").map(|i| i + 2).unwrap_or(0);
+            let r = metered!(ctx, c + (pos - pending_from) + 64, ss.write(&stream_bytes[pos..pos + c]));
             ctx.step("write", c as u64, r.is_ok() as u64);
             fe(&r);
             ep!(ctx, "SummaryStream::write", r.is_ok());
@@ -1116,6 +1118,7 @@ fn pipeline_d(seed: u64, ops: &[DOp], ctx: &mut Ctx) -> Outcome {
     set_hash_seed(seed);
     let mut sum = Summary::new();
     let mut stream = SummaryStream::new();
+    let mut d_stream_total = 0usize;
     for op in ops {
         match op {
             DOp::Set { var, val } => {
@@ -1159,7 +1162,11 @@ fn pipeline_d(seed: u64, ops: &[DOp], ctx: &mut Ctx) -> Outcome {
                 let mut pos = 0usize;
                 for &c in chunks.iter().chain(std::iter::once(&usize::MAX)) {
                     let c = c.min(t.len() - pos);
-                    let r = stream.write(&t[pos..pos + c]);
+                    // this stream object lives through the whole history, failed writes
+                    // included, and the pinned code keeps what a failed write could not
+                    // consume: the allowance is everything it was ever given
+                    d_stream_total += c;
+                    let r = metered!(ctx, d_stream_total + 64, stream.write(&t[pos..pos + c]));
                     ctx.step("write", c as u64, r.is_ok() as u64);
                     fe(&r);
                     ep!(ctx, "SummaryStream::write", r.is_ok());
@@ -1235,7 +1242,12 @@ fn pipeline_e(doc: &[u8], script: &[ReadStep], hash_seed: u64, ctx: &mut Ctx) ->
     let mut reader = SimReader::new(doc.to_vec(), script.to_vec());
     let log = reader.log();
     let mut stream = SummaryStream::new();
-    let r = std::io::copy(&mut reader, &mut stream);
+    // io::copy cuts the document into the reader's pieces: each write may look at
+    // the piece and at the unfinished record before it (at most one record)
+    let longest_record = doc.split(|&c| c == b'\n').fold((0usize, 0usize), |(best, cur), l| if l.is_empty() { (best.max(cur), 0) } else { (best, cur + l.len() + 1) });
+    let longest_record = longest_record.0.max(longest_record.1);
+    let pieces = script.len() + doc.len() / 8192 + 2;
+    let r = metered!(ctx, doc.len() + pieces * (longest_record + 64), std::io::copy(&mut reader, &mut stream));
     log.borrow().absorb(ctx, "read");
     fe(&r);
     ep!(ctx, "io::copy into SummaryStream", r.is_ok());
